@@ -15,16 +15,16 @@ import (
 // (decoded) URL; a Spelling holds every choice of how to write it.
 
 type WebParam struct {
-	Name   string `json:"name"`
-	Value  string `json:"value"`
-	HasEq  bool   `json:"has_eq"`
+	Name  string `json:"name"`
+	Value string `json:"value"`
+	HasEq bool   `json:"has_eq"`
 }
 
 type WebURL struct {
 	Scheme   string     `json:"scheme"`
 	User     string     `json:"user,omitempty"`
 	Pass     string     `json:"pass,omitempty"`
-	Host     string     `json:"host"` // lowercase LDH domain, or an IPv4 / bracketed IPv6 literal in canonical form
+	Host     string     `json:"host"`           // lowercase LDH domain, or an IPv4 / bracketed IPv6 literal in canonical form
 	Port     string     `json:"port,omitempty"` // "" or a non-default port number
 	Segs     []string   `json:"segs"`
 	Slash    bool       `json:"slash"` // trailing slash after the last segment
@@ -44,8 +44,8 @@ type Spelling struct {
 	PortStyle  int    `json:"port_style"` // for a default port: 0 nothing, 1 explicit default port, 2 empty port ":"
 	// Enc[i] is the encoding depth (0..3) of the i-th character of path+query+fragment text;
 	// Lower[i] its hex case; Partial[i] whether nested levels encode the hex digits too
-	Enc     []int  `json:"enc,omitempty"`
-	Lower   []bool `json:"lower,omitempty"`
+	Enc   []int  `json:"enc,omitempty"`
+	Lower []bool `json:"lower,omitempty"`
 	// Partial[i]: what the nested levels re-encode: 0 only '%', 1 every character, 2 only the hex
 	// digits (leaving a literal '%' that later levels complete), 3 only the last hex digit
 	Partial []int `json:"partial,omitempty"`
